@@ -93,7 +93,9 @@ CLAIMED = {
              "overflowed(), well-formed document, clean ledger).",
         design_ref="DESIGN.md §4 C05, §9.6",
         note="Fault enumeration is exhaustive per behaviour for single and from-k schedules (k up to 40), sampled "
-             "for multi-failure subsets. Crashes/UB are observed by ASan/UBSan. Shrinking reallocations never fail.",
+             "for multi-failure subsets; a multi-failure run ends at the first operation that is no longer inside the "
+             "specification's quantifier (Document!Legal: overlapping copy, dangling reference) in the state the earlier "
+             "failures produced. Crashes/UB are observed by ASan/UBSan. Shrinking reallocations never fail.",
         technique="TLA+ spec + TLC (failure nondeterminism); fault enumeration on the library validated by TLC "
                   "postcondition trace spec",
     ),
